@@ -30,9 +30,19 @@ class Dump:
         self.rootmod = None
         self.roots = None
         self.complete = False
+        self.bfpacked = {}   # comp item id -> the `packed` flag compute_bitfield_units used (hook lines BFUNITS / BFPACKED)
+        cur_bf = None
         for line in text.splitlines():
             p = line.split(" ")
             tag = p[0]
+            if tag == "BFUNITS":
+                cur_bf = int(p[1])
+                continue
+            if tag == "BFPACKED":
+                if cur_bf is not None:
+                    self.bfpacked[cur_bf] = p[1] == "1"
+                cur_bf = None
+                continue
             if tag == "ITEM":
                 i = int(p[1])
                 d = kv(p[3:])
